@@ -63,6 +63,9 @@ def _bits_values():
         out.append(('10110011' * 3)[:n])
         out.append('0' * n)
     out.append('1' * 17)
+    # later octets / the whole value starting with zero bits (fragment reassembly must keep them)
+    out += ['1111111100001111', '0110000101100001', '0000000000000001', '000000001', '00000000111111110000000011',
+            '0' * 24, '010000000000000010000000']
     return out
 
 
@@ -154,7 +157,7 @@ def small_values(T):
     if k == 'TAG' or k == 'CON':
         return small_values(T[4] if k == 'TAG' else T[2])
     table = {
-        'BOOL': [True, False], 'INT': [0, -129], 'ENUM': [1, 300], 'BITS': ['', '101'],
+        'BOOL': [True, False], 'INT': [0, -129], 'ENUM': [1, 300], 'BITS': ['', '0110000100001111'],
         'OCTS': [b'', b'\x00\x00'], 'NULL': [None], 'OID': [(1, 2, 128), (2, 999, 3)],
         'REAL': [(3, 2, -1), 'inf'], 'ANY': [bytes.fromhex('020105'), bytes.fromhex('3003020101')],
     }
@@ -199,6 +202,9 @@ def BIG(tier='quick'):
     yield STR('UniversalString'), '\U0001F600' * 300
     for nbits in (7991, 7992, 7993, 8000, 8001, 16001):
         yield BITS, ('110' * nbits)[:nbits]
+    yield BITS, '0' * 8004
+    yield BITS, ('0' * 8000 + '1' * 8000 + '0001')
+    yield BITS, ('001' * 6000)[:16003]
     # length-octet boundaries for containers
     for n in (126, 127, 128, 255, 256):
         yield ('SEQOF', NULL), [None] * ((n + 1) // 2)
@@ -436,6 +442,22 @@ def NEST(tier='quick'):
             yield ('SEQ', (('p', a, 'O', None), ('q', b, 'R', None)))
             yield ('SET', (('p', a, 'R', None), ('q', b, 'O', None)))
 
+    # several long-form (>= 31) tags of the same class and form inside one encoding
+    long_members = [
+        ('SEQ', (('a', E(1000, INT), 'R', None), ('b', E(1001, OCTS), 'R', None))),
+        ('SEQ', (('a', I(31, INT), 'R', None), ('b', I(32, INT), 'O', None), ('c', I(16384, BOOL), 'R', None))),
+        ('SET', (('a', E(300, INT), 'R', None), ('b', E(301, BOOL), 'R', None))),
+        ('SET', (('a', I(2 ** 32, OCTS, 'P'), 'R', None), ('b', I(127, OCTS, 'P'), 'R', None))),
+        ('SEQOF', I(40, INT, 'A')),
+        ('SEQOF', ('CHOICE', (('x', I(300, INT)), ('y', I(301, INT))))),
+        E(70000, E(1000, INT)),
+        ('SEQ', (('p', E(50, ('SEQ', (('i', E(51, INT), 'R', None),)), 'A'), 'R', None), ('q', E(52, NULL, 'A'), 'R', None))),
+    ]
+    for T in long_members:
+        assert M.legal(T), T
+        for v in _nest_values(T, 6 if tier == 'quick' else 12):
+            yield T, v
+
     level2 = [T for T in compose(inner_types) if M.legal(T)]
     for T in level2:
         for v in _nest_values(T, 6 if tier == 'quick' else 12):
@@ -453,7 +475,7 @@ def _nest_values(T, limit):
         return list(itertools.islice(record_values(T), limit))
     if k in ('SEQOF', 'SETOF'):
         inner = small_values(T[1])
-        out = [[], [inner[0]], [inner[-1], inner[0]]]
+        out = [[], [inner[0]], [inner[-1], inner[0]], [inner[0], inner[-1], inner[0]]]
         return out[:limit]
     if k == 'CHOICE':
         return list(itertools.islice(choice_values(T), limit))
